@@ -176,7 +176,7 @@ class TlcResult:
         self.finished = "Model checking completed" in out or "Finished in" in out
         # per action coverage lines of -coverage: <Name line .. of module M>: distinct:total
         self.actions = {}
-        for m in re.finditer(r"^<(\w+) line \d+, col \d+ to line \d+, col \d+ of module (\w+)>: (\d+):(\d+)", out, re.M):
+        for m in re.finditer(r"^<(\w+) line \d+, col \d+ to line \d+, col \d+ of module (\w+)(?: \([\d ]+\))?>: (\d+):(\d+)", out, re.M):
             self.actions[m.group(1)] = self.actions.get(m.group(1), 0) + int(m.group(4))
 
     @property
